@@ -16,6 +16,8 @@ impl LocalKey {
         use digest::Mac;
 
         let (ek, n2) = kdf(&self.0, 0x80, nonce).split();
+        #[cfg(paseto_verif)]
+        let n2 = generic_array::GenericArray::from(paseto_core::verif::counter_override(n2.into()));
         let ak = kdf(&self.0, 0x81, nonce);
 
         let cipher = ctr::Ctr64BE::<aes::Aes256>::new(&ek, &n2);
